@@ -3,7 +3,7 @@
    [acc_*]  is the specification's verdict on an arbitrary outcome (the oracle
             applied to the implementation, and the statement proved of the model);
    [cls_*]  classifies an input for coverage accounting (0 = trivial). *)
-From FP Require Import Machine SrcConsts Pow10 WideDiv Rounding Arith Cmp Unops IntForms Round.
+From FP Require Import Machine SrcConsts Pow10 WideDiv Rounding Arith Cmp Unops IntForms Round Parser.
 From FP Require Import RoundSpec Out ArithSpec.
 
 Inductive binop :=
@@ -223,7 +223,14 @@ Definition acc_fromu128 (u : Z) (o : out) : bool :=
   out_eqb o (if u <=? MAXC then OV (mkdec u 0) else OE E_OVERFLOW).
 
 (* ---------------- kernels (C16, C05) ---------------- *)
-Inductive kop := Ki256 | Ksdmf | Kdivr | Ksdr | Kmdr | Kdmf | Kmag | Kmulw | Kidiv.
+Inductive kop := Ki256 | Ksdmf | Kdivr | Ksdr | Kmdr | Kdmf | Kmag | Kmulw | Kidiv
+                | Kidiv64 | Kidivs | Kmsb | Klt5 | Kchd | Kchv.
+
+(* the eight bytes of a little-endian word, first character first *)
+Definition bytes_le (w : Z) : list Z :=
+  map (fun i => (w / 2 ^ (8 * i)) mod 256) [0; 1; 2; 3; 4; 5; 6; 7].
+Definition all_digits8 (w : Z) : bool := forallb (fun b => (48 <=? b) && (b <=? 57)) (bytes_le w).
+Definition digits8_value (w : Z) : Z := fold_left (fun a b => a * 10 + (b - 48)) (bytes_le w) 0.
 
 Definition out_oqr (r : res (option (Z * Z))) : out :=
   of_res (of_opt (fun '(q, r) => OQ q r)) r.
@@ -241,6 +248,12 @@ Definition run_k (pf : profile) (m : mode) (op : kop) (a b c : Z) : out :=
   | Kmag => out_int (i128_magnitude pf a)
   | Kmulw => of_res (fun '(h, l) => OQ h l) (u128_mul_u128 pf a b)
   | Kidiv => of_res (fun '(h, l, r) => OQ (h * 2 ^ 128 + l) r) (u256_idiv_u128 pf a b c)
+  | Kidiv64 => of_res (fun '(h, l, r) => OQ (h * 2 ^ 128 + l) r) (u256_idiv_u64 pf a b c)
+  | Kidivs => of_res (fun '(h, l, r) => OQ (h * 2 ^ 128 + l) r) (u256_idiv_u128_special pf a b c)
+  | Kmsb => out_int (u128_msb pf a)
+  | Klt5 => out_int (log_lt5 pf a)
+  | Kchd => OB (Parser.chunk_contains_8_digits a)
+  | Kchv => OI (Parser.chunk_to_u64 a)
   end.
 
 (* floor quotient/remainder of num by den > 0, or the report that the quotient
@@ -270,5 +283,9 @@ Definition acc_k (m : mode) (op : kop) (a b c : Z) (o : out) : bool :=
   | Kdmf => out_eqb o (OQ (a / b) (a mod b))
   | Kmag => out_eqb o (OI (ilog10 (Z.abs a)))
   | Kmulw => out_eqb o (OQ (a * b / 2 ^ 128) ((a * b) mod 2 ^ 128))
-  | Kidiv => out_eqb o (OQ ((a * 2 ^ 128 + b) / c) ((a * 2 ^ 128 + b) mod c))
+  | Kidiv | Kidiv64 | Kidivs => out_eqb o (OQ ((a * 2 ^ 128 + b) / c) ((a * 2 ^ 128 + b) mod c))
+  | Kmsb => out_eqb o (OI (Z.log2 a))
+  | Klt5 => out_eqb o (OI (ilog10 a))
+  | Kchd => out_eqb o (OB (all_digits8 a))
+  | Kchv => if all_digits8 a then out_eqb o (OI (digits8_value a)) else true
   end.
